@@ -285,8 +285,8 @@ def run(ck):
     r1 = explore(ck, exec_c03, small, 1)
     if not ck.quick:
         deep = [c for c in small if c['name'] in ('small:p10:l1p1:rs', 'small:p10:l2p3:rs', 'small:p3:l2p3:rs',
-                                                  'small:p10:l2p3:rel', 'small:cache-rw', 'small:cache-ro')]
-        r1b = explore(ck, exec_c03, deep, 2, max_execs=600000)
+                                                  'small:cache-rw')]
+        r1b = explore(ck, exec_c03, deep, 2, max_execs=900000)
         ck.note('executions_deep', r1b)
         ck.note('deep_configurations', [c['name'] for c in deep])
     r2 = explore(ck, exec_c03, large, 1, child_filter=_filter_sample_large, max_execs=100000, chunksize=1)
